@@ -143,4 +143,51 @@ def run(ctx, rep):
         flow, cfg = P.flow(cb), P.cfg(cb)
         vb = variant_blocks(F, cb, flow, cfg, "libwild::layout::FileLayout", {"Dynamic"})
         rep.ob("no-others", f"dynamic-arm:{stable(cb.key)}", cbi in vb, "write_dynamic_file is called only on the FileLayout::Dynamic arm (objects that were not loaded write nothing)", cb.file, ct["l"])
+    _as_needed_scope(ctx, rep)
     rep.assume("the order of DT_NEEDED entries follows the order of the per-file output buffers, which follows file order: not decided here")
+
+
+def _as_needed_scope(ctx, rep):
+    """Linker scripts: `GROUP ( AS_NEEDED ( liba.so ) libb.so )` - only liba.so is as-needed. foreach_input walks the command list with a `modifiers` value; the
+    AS_NEEDED arm must hand a *copy* with as_needed = true to the recursive call and leave its own value alone, otherwise every later entry of the same list
+    inherits the flag and an unreferenced library listed outside the group loses its DT_NEEDED."""
+    from mir import callee_key, op_const
+    F, P = ctx.facts(), ctx.program()
+    rep.rule("as-needed-scope", "in linker_script::foreach_input the modifiers parameter is never written (no store to it or to one of its fields); the AsNeeded arm recurses with a fresh "
+             "Modifiers { as_needed: true, ..modifiers }; Arg entries get the parameter as it was passed in")
+    bs = [b for b in F.all_bodies if b.key == "libwild::linker_script::foreach_input"]
+    if not bs:
+        rep.lost("as-needed-scope", "linker_script::foreach_input")
+        return
+    b = bs[0]
+    flow = P.flow(b)
+    mp = next((i for i in range(1, b.d["argc"] + 1) if b.locals[i].strip().endswith("Modifiers")), None)
+    if mp is None:
+        rep.lost("as-needed-scope", "the Modifiers parameter of foreach_input")
+        return
+    writes = []
+    for bi, blk in enumerate(b.blocks):
+        if blk.get("cleanup"):
+            continue
+        for st in blk["s"]:
+            if st["k"] == "assign" and st["p"][0] == mp:
+                writes.append(st.get("l"))
+        t = blk["t"]
+        if t["k"] == "call" and t["dest"][0] == mp:
+            writes.append(t.get("l"))
+    rep.ob("as-needed-scope", "parameter-not-mutated", not writes,
+           "the modifiers parameter is read-only inside foreach_input" if not writes else
+           f"the modifiers parameter is written at line(s) {writes}: the as_needed flag set for an AS_NEEDED(...) group leaks to the entries that follow the group in the same list", b.file, b.line)
+    rec = [(bi, t) for bi, t in flow.calls() if callee_key(t["f"]) == b.key]
+    fresh = 0
+    for bi, t in rec:
+        for x in flow.origins(t["args"][1]):
+            if x[0] == "agg" and str(x[1]).endswith("Modifiers::Modifiers") or (x[0] == "agg" and "Modifiers" in str(x[1])):
+                # the aggregate: as_needed field is the constant true
+                for blk in b.blocks:
+                    for st in blk["s"]:
+                        if st["k"] == "assign" and st["rv"]["k"] == "agg" and "Modifiers" in str(st["rv"].get("adt") or ""):
+                            fields = st["rv"].get("fields") or []
+                            if "as_needed" in fields and (op_const(st["rv"]["ops"][fields.index("as_needed")]) or {}).get("val") == 1:
+                                fresh += 1
+    rep.ob("as-needed-scope", "group-gets-a-copy", fresh >= 1 and len(rec) >= 2, f"{len(rec)} recursive call(s); {fresh} receive(s) a fresh Modifiers with as_needed = true", b.file, b.line)
